@@ -71,6 +71,7 @@ func histPlans(prop, tier string) []histPlan {
 			ps = append(ps, histPlan{nsqd.HistCfg{MemQ: mq, MaxBytes: 64, MaxMsgs: 3, Chans: 1, Cons: 1, Restart: true}, d})
 		}
 		ps = append(ps, histPlan{nsqd.HistCfg{MemQ: 8, MaxMsgs: 3, Chans: 2, Cons: 2, Restart: true}, d - 1})
+		ps = append(ps, histPlan{nsqd.HistCfg{MemQ: 1, MaxBytes: 64, MaxMsgs: 3, Chans: 1, Cons: 1, Restart: true, TightMax: true}, d - 1})
 	case "C03":
 		ps = append(ps, histPlan{nsqd.HistCfg{MemQ: 8, MaxMsgs: 3, Chans: 1, Cons: 2}, d})
 		ps = append(ps, histPlan{nsqd.HistCfg{MemQ: 8, MaxMsgs: 3, Chans: 1, Cons: 2, Buffered: true}, d})
@@ -91,6 +92,7 @@ func histPlans(prop, tier string) []histPlan {
 		}
 		ps = append(ps, histPlan{nsqd.HistCfg{MemQ: 8, MaxMsgs: 3, Chans: 2, Cons: 1}, d})
 		ps = append(ps, histPlan{nsqd.HistCfg{MemQ: 1, MaxMsgs: 3, Chans: 1, Cons: 2}, d})
+		ps = append(ps, histPlan{nsqd.HistCfg{MemQ: 1, MaxBytes: 64, MaxMsgs: 3, Chans: 1, Cons: 1, TightMax: true}, d - 1})
 	}
 	return ps
 }
